@@ -84,7 +84,7 @@ func main() {
 		"kind/transfer", "kind/deploy", "kind/direct-create", "kind/call",
 		"call-with-value/moved", "call-with-value/failed-inner", "create-inner/executed", "create-tx/contract-created",
 		"selfdestruct-other/executed", "selfdestruct-other/with-balance", "selfdestruct-self/executed", "selfdestruct-self/with-balance",
-		"sstore/set", "sstore/clear-refund", "adjusted-gas", "gas-price-zero", "sender/zero-balance", "value-to-fresh-address", "fee-receiver-is-value-target",
+		"sstore/set", "sstore/clear-refund", "sstore/clear-committed-refund", "adjusted-gas", "gas-price-zero", "sender/zero-balance", "value-to-fresh-address", "fee-receiver-is-value-target",
 		"bad-nonce-low/rejected", "bad-nonce-high/rejected", "bad-nonce/block-rejected-state-unchanged", "block/committed", "block/nonces-advanced",
 		"check/total", "check/nonce", "check/fee", "check/debit", "check/participants"} {
 		r.Require(c, 3)
@@ -468,6 +468,9 @@ func (s *chainState) script() []func(cur *obs) *txCase {
 		call(9, gv(4), 400000, 0),
 		deploy(&prog{Actions: []action{{Kind: "call", To: lit(feeRcv, "fee-receiver"), Value: valSpec{Kind: "callvalue"}}}, Term: "stop"}, big.NewInt(0)), // 10
 		call(10, gv(6), 300000, 0),
+		deploy(&prog{Actions: []action{{Kind: "sstore-cv", Slot: 0}}, Term: "stop"}, big.NewInt(0)), // 11: slot0 = CALLVALUE
+		call(11, gv(8), 300000, 0),        // sets the slot (committed with the block)
+		call(11, big.NewInt(0), 300000, 1), // clears a committed non-zero slot: refund
 		transfer(0, s.eo[1].Addr, gv(1), 20999, 2500, "ok"),                                          // intrinsic gas too low
 		transfer(2, s.eo[1].Addr, new(big.Int).Mul(gv(1000000000), big.NewInt(1000000)), 21000, 500, "ok"), // value > balance
 		transfer(2, s.eo[1].Addr, gv(1), 4000000000, 2500, "ok"),                                    // gasLimit*price > balance: adjusted gas
@@ -959,6 +962,17 @@ func (s *chainState) judge(a *applied, pre, post *obs, wit func(map[string]inter
 		}
 		if p := t.Prog; p != nil && t.Kind != "deploy" {
 			// straight-line program that ended without error: every action ran
+			for _, x := range p.Actions {
+				if x.Kind != "sstore-cv" || t.To == nil {
+					continue
+				}
+				var slot [32]byte
+				slot[31] = byte(x.Slot)
+				old := pre.raw[string(append(append([]byte{byte(scom.ST_STORAGE)}, t.To[:]...), slot[:]...))]
+				if t.Value.Sign() == 0 && len(strings.Trim(old, "\x00")) > 0 {
+					r.Count("sstore/clear-committed-refund")
+				}
+			}
 			if p.has("sstore") {
 				for _, x := range p.Actions {
 					if x.Kind == "sstore" && x.Val != 0 {
